@@ -624,8 +624,13 @@ func main() {
 
 var goOnlyN = 0
 
+var lastFile = os.Getenv("VERIF_C35_LAST")
+
 // goOnly parses bytes with the real parser and only looks for panics / non-termination.
 func goOnly(meta *gallina.Meta, b []byte, format int, o opts) {
+	if lastFile != "" {
+		os.WriteFile(lastFile, []byte(fmt.Sprintf("%d %+v\n%q\n", format, o, b)), 0o644)
+	}
 	r := drive(b, format, o)
 	meta.Evaluations++
 	goOnlyN++
